@@ -286,6 +286,9 @@ static std::vector<Tok> exec_tokens(bool thorough) {
     for (const char* h : {"0100", "ff7f", "ffffff7f", "0080", "aabbcc"}) { bytes d = ref::unhex(h); t.push_back({h, ref::push_raw(d), false}); }
     // hex with the 0x prefix (the spelling the script parser understands and exec's own ambiguity warning recommends)
     for (const char* h : {"0100", "aabbcc"}) { bytes d = ref::unhex(h); t.push_back({std::string("0x") + h, ref::push_raw(d), false}); }
+    // a 10-byte push spelled with decimal digits only: as a number it overflows every integer type, so it is hex; whatever the number test
+    // leaves behind (errno, a saturated value) must not change how the tokens after it - on this line or a later one - are read
+    { bytes d = ref::unhex("99999999999999999999"); t.push_back({"99999999999999999999", ref::push_raw(d), false}); }
     // without the OP_ prefix
     t.push_back({"DUP", bytes{0x76}, false}); t.push_back({"ADD", bytes{0x93}, false});
     // operands whose numeric decoding throws (too long / non-minimal): used only as first element of the triples <operand> <numeric op> <any token>
